@@ -115,3 +115,29 @@ def cases(tier, seed, ctx=None):
         ops = [[0, s] for s in rng.partition(stream)]
         if rng.chance(2, 3): ops.append([1])
         yield ("proxy", [REQ, [], 0, ops, 0, env, [13]], "mut-upstream")
+    # the copier's public API called in any order: block size raised and lowered between blocks, stop, restart, sources of every
+    # kind; nothing here may crash or run away, whatever it copies
+    for _ in range(200 if quick else 3000):
+        n = rng.choice([0, 3, 40, 300, 5000, 20000])
+        content = bytes((i * 7 + 1) % 251 for i in range(n))
+        seq = 1 if rng.chance(1, 4) else 0
+        bs0 = rng.choice([1, 7, 64, 4096, 65536])
+        # start() is called on an idle copier only (a second start() while one runs is outside the documented use): at the beginning,
+        # and again after stop() and one event-loop turn
+        ops = [[0]]
+        state = "running"
+        for _ in range(rng.range(2, 14)):
+            k = rng.below(10)
+            if k == 0 and state == "idle": ops.append([0]); state = "running"
+            elif k <= 4:
+                ops.append([1])
+                if state == "stopped": state = "idle"
+            elif k == 5: ops.append([2]); state = "stopped"
+            elif k <= 7: ops.append([5, rng.choice([1, 2, bs0 * 16, 65536, 262144, 524288, max(1, bs0 // 2)])])
+            elif k == 8 and seq: ops.append([3, rng.bytes(rng.choice([0, 1, 100, 5000]))])
+            elif k == 9 and seq: ops.append([4])
+            else: ops.append([1])
+        frm = rng.choice([0, 0, 1, n // 2, n + 1])
+        to = rng.choice([-1, -1, n - 1, n + 3, 0])
+        fl = [1 if rng.chance(1, 12) else 0 for _ in range(5)]
+        yield ("copier", [content, seq, bs0, 0 if seq else frm, -1 if seq else to, fl, ops + [[1]] * 3, [14, 9]], "copier-api-history")
